@@ -162,6 +162,18 @@ def api_case(ctx, cls, ts, st, en, scale, st2=None, en2=None):
     c = mk_obj(cls, ts, scale, support=ep)
     if ns_arr(c.t) != got_t or (rr is not None and rows_of(c) != rr):
         ctx.fail("oracle", "%s(time_support=ep) != %s().restrict(ep)" % (cls, cls), inp, impl=ns_arr(c.t), expected=got_t)
+    # a TsdFrame built from 1-D data (one column, array or list): rows and timestamps are restricted TOGETHER
+    if cls == "TsdFrame":
+        for form in ("array", "list"):
+            d1 = np.arange(len(ts)) * 10.0 + 1
+            try:
+                c1 = nap.TsdFrame(t=farr(ts, scale), d=d1 if form == "array" else list(d1), time_support=ep)
+            except Exception as e:
+                ctx.fail("oracle", "TsdFrame(t, 1-D d, time_support=ep) raised %r" % (e,), dict(inp, d_form=form)); continue
+            v1 = np.asarray(c1.values)
+            if ns_arr(c1.t) != got_t or v1.shape != (len(got_t), 1) or rows_of(c1) != rr:
+                ctx.fail("oracle", "TsdFrame(t, 1-D d, time_support=ep) != TsdFrame(t, d).restrict(ep)", dict(inp, d_form=form),
+                         impl=dict(t=ns_arr(c1.t), shape=list(v1.shape), rows=rows_of(c1) if v1.shape[0] == len(got_t) else "row count %d" % v1.shape[0]), expected=dict(t=got_t, rows=rr))
     # ... also when the timestamps are given in another unit (the support is an IntervalSet: already in seconds)
     if scale >= 1000:
         for un in ("ms", "us"):
